@@ -1,0 +1,29 @@
+//go:build verif
+// +build verif
+
+package kafka
+
+import "sync/atomic"
+
+// Verification hooks, compiled only with -tags verif. verifPoint(name) calls
+// the callback registered under name, if any; the harness uses the points to
+// widen scheduling windows and to count how often a window was reached.
+
+var verifPoints atomic.Value // map[string]func()
+
+// VerifSetPoints publishes the table of hook callbacks (nil clears it).
+func VerifSetPoints(points map[string]func()) {
+	verifPoints.Store(points)
+}
+
+func verifPoint(name string) {
+	if m, _ := verifPoints.Load().(map[string]func()); m != nil {
+		if f := m[name]; f != nil {
+			f()
+		}
+	}
+}
+
+// VerifMessageTotalSize exposes the size measure that Writer.BatchBytes is
+// expressed in.
+func VerifMessageTotalSize(m Message) int32 { return m.totalSize() }
